@@ -121,3 +121,20 @@ def NOT(x):
 
 def IMPLIES(a, b):
     return OR(NOT(a), b)
+
+
+def halfturn(w, name='n'):
+    """R = 2 n n^T - I: every rotation by exactly pi.  Concrete worlds: when replaying a solver model (and for half of
+    the random samples) the float matrix is snapped to a 2^-40 grid and its last diagonal entry chosen so that the
+    trace is EXACTLY -1, otherwise float rounding of 2nn^T - I lands the trace a hair above -1 and the library never
+    enters its half-turn branch (that float behaviour is known finding F06 and is what the unsnapped samples show)."""
+    n = w.unit3(name)
+    R = w.array([[2 * n[i] * n[j] - (1 if i == j else 0) for j in range(3)] for i in range(3)])
+    if not w.symbolic:
+        import numpy as np
+        if w.rng is None or w.rng.random() < 0.5:
+            g = 2.0 ** 40
+            R = np.round(np.array(R, dtype=float) * g) / g
+            R = (R + R.T) / 2
+            R[2, 2] = -1.0 - R[0, 0] - R[1, 1]
+    return R, n
